@@ -32,6 +32,15 @@ type h12Env struct {
 	mu        sync.Mutex
 	accepted  []net.Conn
 	port      int
+	events    atomic.Int64 // permission / channel lifecycle events seen
+	slowPeer  atomic.Value // net.IP: OnPermissionDeleted / OnChannelDeleted for this peer take slowFor (they run under the entry list's lock)
+	slowFor   atomic.Int64
+}
+
+func (e *h12Env) slowIf(ip net.IP) {
+	if sp, _ := e.slowPeer.Load().(net.IP); sp != nil && sp.Equal(ip) {
+		time.Sleep(time.Duration(e.slowFor.Load()))
+	}
 }
 
 func newH12Env(vt *vhT, bindTimeout time.Duration) *h12Env {
@@ -63,7 +72,17 @@ func newH12Env(vt *vhT, bindTimeout time.Duration) *h12Env {
 			return d.Dial(info.Network, info.RemoteAddr.String())
 		},
 		EventHandler: EventHandler{
-			OnPermissionDeleted: func(net.Addr, net.Addr, string, string, string, net.Addr, net.IP) {
+			OnPermissionCreated: func(net.Addr, net.Addr, string, string, string, net.Addr, net.IP) { e.events.Add(1) },
+			OnChannelCreated:    func(net.Addr, net.Addr, string, string, string, net.Addr, net.Addr, uint16) { e.events.Add(1) },
+			OnChannelDeleted: func(_, _ net.Addr, _, _, _ string, _, peer net.Addr, _ uint16) {
+				e.events.Add(1)
+				if u, ok := peer.(*net.UDPAddr); ok {
+					e.slowIf(u.IP)
+				}
+			},
+			OnPermissionDeleted: func(_, _ net.Addr, _, _, _ string, _ net.Addr, peer net.IP) {
+				e.events.Add(1)
+				e.slowIf(peer)
 				if d := time.Duration(e.permDel.Load()); d > 0 {
 					select {
 					case e.entered <- struct{}{}:
@@ -224,8 +243,20 @@ func runH12BindVsTimer(vt *vhT, bindAt, holdFrom, holdFor, timeout time.Duration
 		return
 	}
 	if got == nil {
-		// the deadline won although the request came in time: tolerated only when the lock was busy (it was)
+		// the deadline won although the request came in time: tolerated only when the lock was busy (it was) - but then the
+		// deadline must really have won: exactly one of the two gets the connection, a refused one is closed and forgotten
 		vt.Stat("h12.bind.refused")
+		closed := false
+		for end := time.Now().Add(3 * time.Second); time.Now().Before(end) && !closed; {
+			closed = !stillOpen(peer, 100*time.Millisecond)
+		}
+		e.m.lock.Lock()
+		_, there := alice.tcpConnections[cid]
+		e.m.lock.Unlock()
+		if !closed || there {
+			vt.Alarm("bind-refused-but-connection-kept", "ConnectionBind arrived %v after Connect (deadline %v) and was REFUSED, yet the peer connection is neither closed (closed=%v) "+
+				"nor forgotten (registered=%v): nobody can ever bind it and the peer cannot be connected to again", arrived.Round(time.Millisecond), timeout, closed, there)
+		}
 		vt.Obs("ok")
 
 		return
@@ -288,8 +319,14 @@ func runH12DialOutlivesAllocation(vt *vhT, cause string) {
 		if peer := e.lastPeer(time.Second); peer != nil && stillOpen(peer, 300*time.Millisecond) {
 			vt.Alarm("connection-attached-to-dead-allocation", "the peer connection made for the dead allocation stays open")
 		}
-	} else if peer := e.lastPeer(300 * time.Millisecond); peer != nil && stillOpen(peer, 300*time.Millisecond) {
-		vt.Alarm("connection-attached-to-dead-allocation", "Connect failed (%v) but the peer connection it made stays open", err)
+	} else if peer := e.lastPeer(1500 * time.Millisecond); peer != nil { // the dial may still be under way when Connect has already failed
+		closed := false
+		for end := time.Now().Add(2 * time.Second); time.Now().Before(end) && !closed; {
+			closed = !stillOpen(peer, 100*time.Millisecond)
+		}
+		if !closed {
+			vt.Alarm("connection-attached-to-dead-allocation", "Connect failed (%v) but the peer connection it made stays open, owned by nobody", err)
+		}
 	}
 	vt.Obs("ok")
 }
@@ -347,11 +384,135 @@ func runH12Rules(vt *vhT) {
 		vt.Alarm("bind-rule-broken", "a second Connect to a connected peer succeeded")
 	}
 	time.Sleep(timeout + 150*time.Millisecond)
-	if peer2 != nil && stillOpen(peer2, 100*time.Millisecond) {
-		vt.Alarm("bind-rule-broken", "an unbound peer connection is still open after the bind deadline")
+	if peer2 != nil {
+		closed := false
+		for end := time.Now().Add(3 * time.Second); time.Now().Before(end) && !closed; { // a late timer under CPU load is no violation
+			closed = !stillOpen(peer2, 100*time.Millisecond)
+		}
+		if !closed {
+			vt.Alarm("bind-rule-broken", "an unbound peer connection is still open 3 s after the bind deadline")
+		}
 	}
 	if c := e.m.GetTCPConnection("alice", cid2); c != nil {
 		vt.Alarm("bind-rule-broken", "bind granted after the deadline")
+	}
+	vt.Obs("ok")
+}
+
+// what a request handler does after a slow user callback (PermissionHandler, AuthHandler): it still holds the *Allocation
+// it looked up, and the allocation may have ended meanwhile - nothing may be attached to it, no timer started, no event fired
+func runH12AttachToDeadAllocation(vt *vhT, cause string) {
+	vt.OpSync("slowcb PermissionHandler allocation-%s 1", cause)
+	e := newH12Env(vt, 2*time.Second)
+	if e == nil {
+		vt.Obs("ok")
+
+		return
+	}
+	defer e.close()
+	life := time.Minute
+	if cause == "expiry" {
+		life = 150 * time.Millisecond
+	}
+	alice, ft := e.alloc("alice", proto.ProtoUDP, life)
+	if alice == nil {
+		vt.Obs("ok")
+
+		return
+	}
+	if cause == "delete" {
+		e.m.DeleteAllocation(ft)
+	}
+	for end := time.Now().Add(2 * time.Second); e.m.GetAllocation(ft) != nil && time.Now().Before(end); {
+		time.Sleep(10 * time.Millisecond)
+	}
+	if e.m.GetAllocation(ft) != nil {
+		vt.Note("allocation still there, scenario void")
+		vt.Obs("ok")
+
+		return
+	}
+	before := e.events.Load()
+	peer := &net.UDPAddr{IP: net.IPv4(127, 0, 0, 9), Port: 4444}
+	alice.AddPermission(NewPermission(peer, e.m.log, time.Minute))
+	if n := len(alice.ListPermissions()); n != 0 {
+		vt.Alarm("state-attached-to-dead-allocation", "a permission added after the allocation ended (%s) is installed on it (%d listed) with a running timer", cause, n)
+		alice.RemovePermission(peer)
+	}
+	err := alice.AddChannelBind(NewChannelBind(0x4000, &net.UDPAddr{IP: net.IPv4(127, 0, 0, 9), Port: 4445}, e.m.log), time.Minute, time.Minute)
+	if n := len(alice.ListChannelBindings()); n != 0 || len(alice.ListPermissions()) != 0 {
+		vt.Alarm("state-attached-to-dead-allocation", "a channel binding added after the allocation ended (%s) is installed on it (err=%v, %d bindings, %d permissions)",
+			cause, err, n, len(alice.ListPermissions()))
+		alice.RemoveChannelBind(0x4000)
+		alice.RemovePermission(&net.UDPAddr{IP: net.IPv4(127, 0, 0, 9), Port: 4445})
+	}
+	if after := e.events.Load(); after != before {
+		vt.Alarm("state-attached-to-dead-allocation", "%d lifecycle events were reported for an allocation that had already been reported deleted (%s)", after-before, cause)
+	}
+	vt.Obs("ok")
+}
+
+// a CreatePermission / ChannelBind that refreshes an entry in the instant its lifetime runs out, while the entry list's lock is
+// busy (another entry of the same allocation is being removed and its slow deleted-callback runs under that lock): the request
+// is answered with success, so the entry must live on
+func runH12RefreshVsEntryExpiry(vt *vhT, kind string) {
+	vt.OpSync("slowcb refresh-vs-%s-expiry none 1", kind)
+	e := newH12Env(vt, 2*time.Second)
+	if e == nil {
+		vt.Obs("ok")
+
+		return
+	}
+	defer e.close()
+	alice, _ := e.alloc("alice", proto.ProtoUDP, time.Minute)
+	if alice == nil {
+		vt.Obs("ok")
+
+		return
+	}
+	p1 := &net.UDPAddr{IP: net.IPv4(127, 0, 0, 11), Port: 1000}
+	p2 := &net.UDPAddr{IP: net.IPv4(127, 0, 0, 12), Port: 2000}
+	e.slowPeer.Store(p1.IP)
+	e.slowFor.Store(int64(400 * time.Millisecond))
+	t0 := time.Now()
+	var err error
+	if kind == "permission" {
+		alice.AddPermission(NewPermission(p1, e.m.log, 200*time.Millisecond))
+		alice.AddPermission(NewPermission(p2, e.m.log, 350*time.Millisecond))
+	} else {
+		err = alice.AddChannelBind(NewChannelBind(0x4001, p1, e.m.log), 200*time.Millisecond, time.Minute)
+		if err == nil {
+			err = alice.AddChannelBind(NewChannelBind(0x4002, p2, e.m.log), 350*time.Millisecond, time.Minute)
+		}
+	}
+	if err != nil {
+		vt.Alarm("h12-setup", "refresh-vs-%s-expiry: %v", kind, err)
+		vt.Obs("ok")
+
+		return
+	}
+	// t0+200: entry 1 expires, its deleted-callback holds the lock until t0+600; t0+350: entry 2's timer fires and queues;
+	// t0+450: the refresh of entry 2 arrives and queues as well
+	time.Sleep(time.Until(t0.Add(450 * time.Millisecond)))
+	if kind == "permission" {
+		alice.AddPermission(NewPermission(p2, e.m.log, time.Minute))
+	} else {
+		err = alice.AddChannelBind(NewChannelBind(0x4002, p2, e.m.log), time.Minute, time.Minute)
+	}
+	done := time.Since(t0)
+	time.Sleep(400 * time.Millisecond)
+	alive := alice.GetPermission(p2) != nil
+	if kind == "channel" {
+		alive = alice.GetChannelByNumber(0x4002) != nil
+	}
+	switch {
+	case err != nil:
+		vt.Stat("h12.refresh-vs-entry." + kind + ".refused") // nothing was promised
+	case !alive:
+		vt.Alarm("entry-refreshed-then-expired", "the %s of %s was refreshed (the request returned without error %v after it was installed with a lifetime of 350 ms, "+
+			"while another entry's deleted-callback held the lock) and is gone 400 ms later", kind, p2, done.Round(10*time.Millisecond))
+	default:
+		vt.Stat("h12.refresh-vs-entry." + kind + ".kept")
 	}
 	vt.Obs("ok")
 }
@@ -372,8 +533,14 @@ func TestVerifH12(t *testing.T) {
 		runH12BindVsTimer(vt, 240*time.Millisecond, 50*time.Millisecond, 400*time.Millisecond, 300*time.Millisecond)
 		vt.Flush()
 	}
+	for _, kind := range []string{"permission", "channel"} {
+		runH12RefreshVsEntryExpiry(vt, kind)
+		vt.Flush()
+	}
 	for _, cause := range []string{"expiry", "delete"} {
 		runH12DialOutlivesAllocation(vt, cause)
+		vt.Flush()
+		runH12AttachToDeadAllocation(vt, cause)
 		vt.Flush()
 	}
 }
